@@ -49,6 +49,15 @@ CHECKS["C02"] = dict(
     design_ref="DESIGN.md section 4 C02",
     note=TB)
 
+CHECKS["C13"] = dict(
+    category="proof",
+    technique="operator dispatch matrix resolved through the MRO against CEL's operator typing table; return-expression analysis",
+    text="For every row of CEL's operator typing table restricted to celpy's types the resolved cell (direct, and reflected where reachable) must be a "
+         "repository method whose every return builds the result class; function_*, macro_*, boolean(), operator_in, has() must return CEL classes; the "
+         "type-name table must denote those classes. Complete over the operator x type matrix; holds for all operand values because it constrains every return.",
+    design_ref="DESIGN.md section 4 C13",
+    note=TB + " Inherited builtin arithmetic slots return the builtin base type (CPython fact).")
+
 PENDING = {}  # property id -> reason, for properties not claimed
 
 def main():
